@@ -3446,12 +3446,6 @@ impl GatheringTask for StopTask {
             ServerState::Running,
             "StopTask::on_finish must observe a shutdown run-state, never Running"
         );
-        if timed_out && self.hardness {
-            client.finish_failure(format!(
-                "Workers take too long to stop ({} ok, {} errors), stopping the main process to sever the link",
-                self.gatherer.ok, self.gatherer.errors
-            ));
-        }
         server.run_state = ServerState::Stopping;
         // POSTCONDITION: shutdown is now committed.
         debug_assert_eq!(
@@ -3459,10 +3453,18 @@ impl GatheringTask for StopTask {
             ServerState::Stopping,
             "StopTask::on_finish must leave the master in the Stopping state"
         );
-        client.finish_ok(format!(
-            "Successfully closed {} workers, {} errors, stopping the main process...",
-            self.gatherer.ok, self.gatherer.errors
-        ));
+        // exactly one final answer: a hard stop that timed out is a failure, not a failure then an ok
+        if timed_out && self.hardness {
+            client.finish_failure(format!(
+                "Workers take too long to stop ({} ok, {} errors), stopping the main process to sever the link",
+                self.gatherer.ok, self.gatherer.errors
+            ));
+        } else {
+            client.finish_ok(format!(
+                "Successfully closed {} workers, {} errors, stopping the main process...",
+                self.gatherer.ok, self.gatherer.errors
+            ));
+        }
     }
 }
 
